@@ -28,6 +28,7 @@ WARNING = "Warning: A successor has modified the shared dicts"
 SHARE = ["filter", "sort", "unique", "head", "tail", "slice", "copy", "reverse", "sample", "semi_join", "anti_join",
          "append", "extend", "insert", "add", "mul", "drop_na", "clear", "group_by"]
 EDIT = ["modify", "modify_if", "modify_nested", "rename", "select", "unselect", "fill", "fill_all", "inner_join", "left_join"]
+FAILING = ["modify_failing"]
 USE = ["pluck", "keys", "to_json"]
 
 
@@ -59,7 +60,7 @@ def _plan(draw, max_steps):
         if kind == "share":
             op = draw(st.sampled_from(SHARE))
         elif kind == "edit":
-            op = draw(st.sampled_from(EDIT))
+            op = draw(st.sampled_from(EDIT + FAILING))
         elif kind == "use":
             op = draw(st.sampled_from(USE))
         elif kind == "forget":
@@ -104,7 +105,7 @@ def nontrivial(plan):
     for s in plan["steps"]:
         i = s["i"] % n
         op = s["op"]
-        if op in USE:
+        if op in USE or op in FAILING:
             continue
         if op in EDIT:
             if depth[i] >= 2:
@@ -196,6 +197,39 @@ def check(plan, ctx):
         expect_warning = node.obsolete and not node.warned
         # full_join works on deep copies of both operands: taking the copy is a use of the right-hand list too
         expect_other = op == "full_join" and other is not node and other.obsolete and not other.warned
+        if op == "modify_failing":
+            # an editing call that raises half-way (its function fails on one item): whatever it did to the items it
+            # reached, it is not a completed edit - no list changes its obsolete state, lists that share nothing with the
+            # receiver keep their contents, and a later successful edit marks the whole chain as usual
+            if len(x) == 0:
+                continue
+            seen = [0]
+            def failing(it, k=a % len(x)):
+                seen[0] += 1
+                if seen[0] - 1 == k:
+                    raise ZeroDivisionError("planned failure")
+                return a
+            buf = io.StringIO()
+            with contextlib.redirect_stdout(buf):
+                try:
+                    x.modify(v=failing)
+                    raise Violation("modify swallowed the exception of its function", step=stepno)
+                except ZeroDivisionError:
+                    pass
+            nwarn = buf.getvalue().count(WARNING)
+            if nwarn != (1 if expect_warning else 0):
+                raise Violation("obsolescence warning not printed exactly once on the next use of an obsolete list",
+                                step=stepno, op=op, printed=nwarn, expected=int(expect_warning))
+            if expect_warning:
+                node.warned = True
+            for idx, n in enumerate(pool):
+                if bool(n.real._obsolete) != n.obsolete:
+                    raise Violation("obsolete flag differs from the derivation model (after an editing call that raised)",
+                                    step=stepno, list=idx, real=bool(n.real._obsolete), model=n.obsolete)
+                if not (origins_before[idx] & recv_origins_before) and _snap(n.real) != snaps[idx]:
+                    raise Violation("a failing edit was observed through a list that shares no items with the receiver", step=stepno, list=idx)
+            ctx.cls("op_modify_failing")
+            continue
         buf = io.StringIO()
         random.seed(a)
         with contextlib.redirect_stdout(buf):
